@@ -806,6 +806,55 @@ Proof.
   apply (r_in e _ _ HR) in Hin. tauto.
 Qed.
 
+(* ---------------------------------------------------------------- run_case is covered by the theorems *)
+Definition cap_nonneg (c : option Z) : bool := match c with Some k => 0 <=? k | None => true end.
+Definition case_ok (c : case) : bool := forallb cap_nonneg (c_caps c).
+
+Lemma case_caps_ok c : case_ok c = true -> caps_ok (env_of_case c).
+Proof.
+  intros H i k. unfold env_of_case. cbn [e_cap].
+  destruct ((0 <=? i) && (i <? c_ncells c)); [|discriminate].
+  intros Hn. unfold case_ok in H. rewrite forallb_forall in H.
+  destruct (nth_in_or_default (Z.to_nat i) (c_caps c) None) as [Hin|Hd].
+  - specialize (H _ Hin). rewrite Hn in H. simpl in H. lia.
+  - rewrite Hd in Hn. discriminate.
+Qed.
+
+(* the successive (state, result) pairs of a history *)
+Fixpoint trace (e : env) (s : state) (ops : list op) : list (state * result) :=
+  match ops with
+  | [] => []
+  | o :: t => step e s o :: trace e (fst (step e s o)) t
+  end.
+
+Lemma run_ops_trace e ops : forall s,
+  run_ops e s ops = map (fun sr => obs e (fst sr) (snd sr)) (trace e s ops).
+Proof.
+  induction ops as [|o t IH]; intros s; simpl; [reflexivity|].
+  destruct (step e s o) as [s' r]. simpl. rewrite IH. reflexivity.
+Qed.
+
+Lemma trace_inv e ops : caps_ok e -> forall s, Inv e s -> Forall (fun sr => Inv e (fst sr)) (trace e s ops).
+Proof.
+  intros Hc. induction ops as [|o t IH]; intros s HI; simpl; constructor.
+  - destruct (step e s o) as [s' r] eqn:E. simpl. eapply step_inv; eassumption.
+  - apply IH. destruct (step e s o) as [s' r] eqn:E. simpl. eapply step_inv; eassumption.
+Qed.
+
+(* every observation run_case prints (the thing the correspondence compares with the implementation) is the
+   observation of a state satisfying the invariant *)
+Lemma run_case_covered c :
+  case_ok c = true ->
+  let e := env_of_case c in
+  caps_ok e /\
+  run_case c = map (fun sr => obs e (fst sr) (snd sr)) (trace e init (c_ops c)) /\
+  Forall (fun sr => Inv e (fst sr)) (trace e init (c_ops c)).
+Proof.
+  intros H e. pose proof (case_caps_ok c H) as Hc. split; [exact Hc|]. split.
+  - unfold run_case. apply run_ops_trace.
+  - apply trace_inv; [exact Hc|apply init_inv].
+Qed.
+
 (* ---------------------------------------------------------------- the C18 lemmas under the names Properties/C18.v re-exports *)
 Lemma C18_cellspace_atomic_obs e s o s' k :
   caps_ok e -> Inv e s -> step e s o = (s', Err k) -> obs e s' (Err k) = obs e s (Err k).
